@@ -655,3 +655,334 @@ Qed.
 
 Theorem ireach_l1 count rounds x : ireach count rounds x -> L1 count x.
 Proof. induction 1; [apply init_l1|apply l1_step; assumption]. Qed.
+Lemma sbit_cases count v : (sbit count v = 1 /\ (v + 1) mod count = 0) \/ (sbit count v = 0 /\ (v + 1) mod count <> 0).
+Proof. unfold sbit. destruct ((v + 1) mod count =? 0) eqn:E; [left|right]; split; auto; lia. Qed.
+
+Lemma one_serial_of_l1 count x : L1 count x ->
+  word (mem (base x)) 0%nat = Z.of_nat (length (arr x)) /\
+  (forall i t k v, nth_error (arr x) i = Some (t, k, v) -> v = Z.of_nat i) /\
+  NoDup (map fst (arr x)) /\ NoDup (map fst (rets x)) /\
+  (forall t k r, In (t, k, r) (rets x) ->
+     exists v, In (t, k, v) (arr x) /\
+               ((r = 1 /\ (v + 1) mod count = 0) \/ (r = 0 /\ (v + 1) mod count <> 0))).
+Proof.
+  intros I. split; [apply I|]. split; [apply I|]. split; [apply I|]. split; [apply I|].
+  intros t k r H. destruct (l1_rets _ _ I _ _ _ H) as (v & Hv & ->). exists v. split; [exact Hv|].
+  apply sbit_cases.
+Qed.
+
+(* components of the state after a step, from the result of kstep *)
+Lemma lstep_view x t m1 e1 s1 :
+  kstep bc (cret (cnt (base x))) (mem (base x)) t (stk (base x) t) = (m1, e1, s1) ->
+  mem (base (lstep x t)) = m1 /\ stk (base (lstep x t)) t = s1 /\
+  (forall u, u <> t -> stk (base (lstep x t)) u = stk (base x) u) /\
+  cnt (base (lstep x t)) = cnt (base x) /\ nthr (base (lstep x t)) = nthr (base x).
+Proof.
+  intros K. rewrite lstep_erase. unfold step. rewrite K. cbn.
+  split; [reflexivity|]. split; [apply upd_same|]. split; [|split; reflexivity].
+  intros u N. apply upd_other. exact N.
+Qed.
+
+Lemma run_slots_plain m t rest :
+  slot_sched m t = false -> slot_mutex m t = None -> slot_wait m t = None -> slot_mpmc m t = None ->
+  run_slots bc m t rest = match pend m t with
+                          | S k => (set_pend m t k, [], Resume :: rest)
+                          | O => (set_blocked m t true, [], Asleep :: rest)
+                          end.
+Proof. intros A B C D. unfold run_slots. rewrite A, D, B, C. unfold sleep. destruct (pend m t); reflexivity. Qed.
+
+(* ---- nobody returns from any wait before count fetch_adds were executed ----
+   (every configuration).  While the counter is below count the system is
+   "simple": no serial fiber, nobody has been woken. *)
+Definition simple_local (m : kmem) (u : nat) (sg : stack bc) : Prop :=
+  match sg with
+  | [WData _; FC _] | [WNext _ _; FC _] | [WXchg _ _; FC _] | [WLink _ _ _; FC _] => fstate m u = ST_SAVING
+  | [YRead; FC _] => fstate m u = ST_SAVING
+  | [YNext st; FC _] => st = ST_SAVING /\ fstate m u = ST_SAVING
+  | [SwRead; YLoop; FC _] | [SwDone; YLoop; FC _] | [MRead; YLoop; FC _] => fstate m u = ST_SAVING
+  | [SwReady; YLoop; FC _] => False
+  | [Asleep; YLoop; FC _] => blocked m u = true
+  | [Resume; YLoop; FC _] => False
+  | _ => True
+  end.
+
+Record Simple (x : ist) : Prop := {
+  sp_pend : forall u, pend (mem (base x)) u = O /\ slot_sched (mem (base x)) u = false;
+  sp_noser : forall u n k, bot (stk (base x) u) <> Some (BRet n k 1);
+  sp_local : forall u, simple_local (mem (base x)) u (stk (base x) u);
+  sp_rets : rets x = []
+}.
+
+Lemma simple_init count rounds : Simple (iinit count rounds).
+Proof. constructor; cbn; auto. intros; discriminate. Qed.
+
+Lemma simple_local_frame m m' u sg :
+  fstate m' u = fstate m u -> blocked m' u = blocked m u -> simple_local m u sg -> simple_local m' u sg.
+Proof.
+  intros A B. unfold simple_local.
+  repeat match goal with |- context [match ?v with _ => _ end] => destruct v; try rewrite A; try rewrite B; auto end.
+Qed.
+
+Lemma lstep_rets_same x t :
+  (forall n k r, bot (stk (base x) t) <> Some (BRet n k r)) \/
+  (exists n k r, bot (stk (base (lstep x t)) t) = Some (BRet n k r)) ->
+  rets (lstep x t) = rets x.
+Proof.
+  intros H. rewrite lstep_rets. rewrite <- lstep_erase.
+  destruct (bot (stk (base x) t)) as [[n k|n k|n k r]|]; try reflexivity.
+  destruct H as [H|(n' & k' & r' & H)]; [exfalso; eapply H; reflexivity|]. rewrite H. reflexivity.
+Qed.
+
+Lemma simple_finish x t m1 s1 :
+  Simple x ->
+  mem (base (lstep x t)) = m1 -> stk (base (lstep x t)) t = s1 ->
+  (forall u, u <> t -> stk (base (lstep x t)) u = stk (base x) u) ->
+  (forall u, u <> t -> fstate m1 u = fstate (mem (base x)) u /\ blocked m1 u = blocked (mem (base x)) u) ->
+  (forall u, pend m1 u = O /\ slot_sched m1 u = false) ->
+  simple_local m1 t s1 ->
+  (forall n k, bot s1 <> Some (BRet n k 1)) ->
+  ((forall n k r, bot (stk (base x) t) <> Some (BRet n k r)) \/ (exists n k r, bot s1 = Some (BRet n k r))) ->
+  Simple (lstep x t).
+Proof.
+  intros S Em Es Eo Ef Ep Hl Hb Hr. constructor.
+  - rewrite Em. exact Ep.
+  - intros u. destruct (Nat.eq_dec u t) as [->|N]; [rewrite Es; apply Hb|]. rewrite Eo by exact N. apply S.
+  - intros u. rewrite Em. destruct (Nat.eq_dec u t) as [->|N]; [rewrite Es; exact Hl|].
+    rewrite Eo by exact N. destruct (Ef u N) as [A B]. eapply simple_local_frame; eauto. apply S.
+  - rewrite lstep_rets_same; [apply S|]. rewrite Es. exact Hr.
+Qed.
+
+Ltac upd_tac := cbn; unfold upd; repeat match goal with |- context [Nat.eqb ?a ?b] => destruct (Nat.eqb_spec a b); try congruence end; auto.
+
+Lemma simple_step count x t :
+  L1 count x -> 1 <= count -> status_of (base x) t = SReady -> Simple x ->
+  word (mem (base x)) 0%nat < count ->
+  Simple (lstep x t) \/ count <= word (mem (base (lstep x t))) 0%nat.
+Proof.
+  intros L1x Hc Hst S Hw.
+  pose proof (l1_cnt _ _ L1x) as Ic. pose proof (l1_slots _ _ L1x) as Is. pose proof (l1_shape _ _ L1x t) as Sh.
+  destruct (kstep bc (cret (cnt (base x))) (mem (base x)) t (stk (base x) t)) as [[m1 e1] s1] eqn:K.
+  destruct (lstep_view x t m1 e1 s1 K) as (Em & Es & Eo & _ & _).
+  rewrite Ic in K. pose proof (sp_local _ S t) as Lt. pose proof (sp_pend _ S) as Sp.
+  pose proof (sp_noser _ S t) as Ns.
+  set (m := mem (base x)) in *.
+  remember (stk (base x) t) as sg eqn:Esg.
+  destruct Sh as [|n|n k|f n k Hf|y n k Hy|f n k Hf|y wc n k Hy].
+  - (* done *) unfold status_of in Hst. rewrite <- Esg in Hst. destruct (t <? nthr (base x))%nat; discriminate.
+  - (* start *)
+    cbn [kstep] in K. rewrite ret_bnext in K. injection K as <- <- <-. left.
+    apply (simple_finish x t _ _ S Em Es Eo); try (intros; upd_tac).
+    + destruct n; exact I.
+    + destruct n; cbn; discriminate.
+    + left. rewrite <- Esg. cbn. discriminate.
+  - (* fetch_add *)
+    cbn [kstep ret cret] in K. fold m in K.
+    destruct (Z_lt_ge_dec (word m 0%nat + 1) count) as [L|L].
+    + assert (E : (word m 0%nat + 1) mod count =? 0 = false).
+      { pose proof (l1_word _ _ L1x) as Hl. fold m in Hl. apply Z.eqb_neq. rewrite Z.mod_small; lia. }
+      rewrite E in K. injection K as <- <- <-. left.
+      apply (simple_finish x t _ _ S Em Es Eo); try (intros; upd_tac); try (intros; cbn; discriminate).
+      left. rewrite <- Esg. cbn. discriminate.
+    + right. rewrite Em.
+      destruct ((word m 0%nat + 1) mod count =? 0); injection K as <- <- <-; cbn; unfold upd; cbn; lia.
+  - (* push *)
+    left.
+    destruct Hf; cbn in K; injection K as <- <- <-; cbn in Lt;
+      apply (simple_finish x t _ _ S Em Es Eo); try (intros; upd_tac); try discriminate;
+      try (right; do 3 eexists; reflexivity).
+  - (* yield *)
+    left.
+    destruct Hy; cbn [app] in *; cbn [simple_local] in Lt.
+    + cbn in K. injection K as <- <- <-.
+      apply (simple_finish x t _ _ S Em Es Eo); try (intros; upd_tac); try discriminate;
+      try (right; do 3 eexists; reflexivity).
+    + destruct Lt as [-> Lt]. cbn in K. injection K as <- <- <-.
+      apply (simple_finish x t _ _ S Em Es Eo); try (intros; upd_tac); try discriminate;
+      try (right; do 3 eexists; reflexivity).
+    + cbn [kstep] in K. fold m in Lt. rewrite Lt in K. cbn in K. injection K as <- <- <-.
+      apply (simple_finish x t _ _ S Em Es Eo); try (intros; upd_tac); try discriminate;
+      try (right; do 3 eexists; reflexivity).
+    + contradiction.
+    + cbn in K. injection K as <- <- <-.
+      apply (simple_finish x t _ _ S Em Es Eo); try (intros; upd_tac); try discriminate;
+      try (right; do 3 eexists; reflexivity).
+    + cbn [kstep] in K. fold m in Lt. rewrite Lt in K. cbn in K. injection K as <- <- <-.
+      apply (simple_finish x t _ _ S Em Es Eo); try (intros; upd_tac); try discriminate;
+      try (right; do 3 eexists; reflexivity).
+    + cbn [kstep] in K. destruct (Sp t) as [Pt St]. destruct (Is t) as (A & B & C).
+      rewrite run_slots_plain in K by (cbn; assumption). cbn in K. fold m in Pt. rewrite Pt in K.
+      injection K as <- <- <-.
+      apply (simple_finish x t _ _ S Em Es Eo); try (intros; upd_tac); try discriminate;
+      try (right; do 3 eexists; reflexivity).
+    + exfalso. unfold status_of in Hst. rewrite <- Esg in Hst. cbn [kstatus] in Hst. fold m in Hst.
+      rewrite Lt in Hst. destruct (t <? nthr (base x))%nat; discriminate.
+    + contradiction.
+  - exfalso. apply (Ns n k). reflexivity.
+  - exfalso. apply (Ns n k). destruct Hy; reflexivity.
+Qed.
+
+Lemma word_mono count x t : L1 count x ->
+  word (mem (base x)) 0%nat <= word (mem (base (lstep x t))) 0%nat.
+Proof.
+  intros L. pose proof (lstep_cases count x t (l1_cnt _ _ L) (l1_slots _ _ L) (l1_shape _ _ L t)) as K.
+  cbv zeta in K. destruct K as (_ & _ & K).
+  destruct K as [(_ & W & _)|[(n & k & _ & _ & W & _)|[(_ & _ & W & _)|[(n & _ & _ & W & _)|[(k & r & _ & _ & W & _)|(n & k & r & _ & _ & W & _)]]]]]; lia.
+Qed.
+
+Lemma ireach_simple count rounds x : 1 <= count -> ireach count rounds x ->
+  Simple x \/ count <= word (mem (base x)) 0%nat.
+Proof.
+  intros Hc R. induction R as [|x t R IH Hs].
+  - left. apply simple_init.
+  - pose proof (ireach_l1 _ _ _ R) as L. destruct IH as [S|W].
+    + destruct (Z_lt_ge_dec (word (mem (base x)) 0%nat) count) as [Lt|Ge].
+      * apply (simple_step count); assumption.
+      * right. pose proof (word_mono count x t L). lia.
+    + right. pose proof (word_mono count x t L). lia.
+Qed.
+
+(* in every configuration: a fiber has returned from a wait only if count
+   fetch_adds have been executed *)
+Lemma no_return_before_count count rounds x t k r :
+  1 <= count -> ireach count rounds x -> In (t, k, r) (rets x) ->
+  count <= Z.of_nat (length (arr x)).
+Proof.
+  intros Hc R H. rewrite <- (l1_word _ _ (ireach_l1 _ _ _ R)).
+  destruct (ireach_simple count rounds x Hc R) as [S|W]; [|exact W].
+  rewrite (sp_rets _ S) in H. destruct H.
+Qed.
+
+(* ---- one round per fiber ---- *)
+Definition single_bot (c : bc) : Prop :=
+  match c with
+  | BNext n k => k = 1%nat /\ (n <= 1)%nat
+  | BArrived n k => n = O /\ k = 1%nat
+  | BRet n k _ => n = O /\ k = 1%nat
+  end.
+
+Record SR (x : ist) : Prop := {
+  sr_bot : forall t c, bot (stk (base x) t) = Some c -> single_bot c;
+  sr_arr : forall t k v, In (t, k, v) (arr x) -> k = 1%nat /\ (t < nthr (base x))%nat;
+  sr_rets : forall t k r, In (t, k, r) (rets x) -> k = 1%nat
+}.
+
+Lemma sr_init count rounds : Forall (fun r => r = 1%nat) rounds -> SR (iinit count rounds).
+Proof.
+  intros F. constructor; cbn; try (intros; contradiction).
+  intros t c E. injection E as <-. cbn. split; [reflexivity|].
+  destruct (nth_in_or_default t rounds O) as [H|H]; [|rewrite H; lia].
+  rewrite Forall_forall in F. rewrite (F _ H). lia.
+Qed.
+
+Lemma lstep_nthr x t : nthr (base (lstep x t)) = nthr (base x).
+Proof. rewrite lstep_erase. apply step_nthr. Qed.
+
+Lemma sr_step count x t : L1 count x -> status_of (base x) t = SReady -> SR x -> SR (lstep x t).
+Proof.
+  intros L Hs [Sb Sa Sr].
+  assert (Ht : (t < nthr (base x))%nat).
+  { unfold status_of in Hs. destruct (t <? nthr (base x))%nat eqn:E; [apply Nat.ltb_lt; exact E|discriminate]. }
+  pose proof (lstep_cases count x t (l1_cnt _ _ L) (l1_slots _ _ L) (l1_shape _ _ L t)) as K.
+  cbv zeta in K. destruct K as (_ & _ & K).
+  assert (Eo : forall u, u <> t -> stk (base (lstep x t)) u = stk (base x) u).
+  { intros u N. rewrite lstep_erase. apply step_stk_other. exact N. }
+  assert (Bo : (forall c, bot (stk (base (lstep x t)) t) = Some c -> single_bot c) ->
+               forall u c, bot (stk (base (lstep x t)) u) = Some c -> single_bot c).
+  { intros H u c. destruct (Nat.eq_dec u t) as [->|N]; [apply H|rewrite Eo by exact N; apply Sb]. }
+  destruct K as [(B & W & E1 & E2 & E3)|[(n & k & B & B' & W & E2 & E1 & E3)|[(B & B' & W & E1 & E2 & E3)|
+                 [(n & B & B' & W & E1 & E2 & E3)|[(k & r & B & B' & W & E3 & E1 & E2)|(n & k & r & B & B' & W & E3 & E1 & E2)]]]]].
+  - constructor; rewrite ?lstep_nthr, ?E2, ?E3; eauto. apply Bo. rewrite B. apply Sb.
+  - pose proof (Sb t _ B) as [-> ->]. constructor; rewrite ?lstep_nthr, ?E2, ?E3; eauto.
+    + apply Bo. rewrite B'. intros c E. injection E as <-. split; reflexivity.
+    + intros t0 k0 v0. rewrite in_snoc. intros [H|H]; [eauto|]. injection H as -> -> ->. auto.
+  - constructor; rewrite ?lstep_nthr, ?E2, ?E3; eauto. apply Bo. rewrite B'. discriminate.
+  - pose proof (Sb t _ B) as [_ Hn]. constructor; rewrite ?lstep_nthr, ?E2, ?E3; eauto.
+    apply Bo. rewrite B'. intros c E. injection E as <-. split; [lia|reflexivity].
+  - pose proof (Sb t _ B) as [_ ->]. constructor; rewrite ?lstep_nthr, ?E2, ?E3; eauto.
+    + apply Bo. rewrite B'. discriminate.
+    + intros t0 k0 r0. rewrite in_snoc. intros [H|H]; [eauto|]. injection H as -> -> ->. reflexivity.
+  - pose proof (Sb t _ B) as [Hn _]. discriminate.
+Qed.
+
+Lemma ireach_sr count rounds x :
+  Forall (fun r => r = 1%nat) rounds -> ireach count rounds x -> SR x.
+Proof.
+  intros F R. induction R as [|x t R IH Hs]; [apply sr_init; exact F|].
+  apply (sr_step count); auto. eapply ireach_l1; eauto.
+Qed.
+
+Lemma ireach_nthr count rounds x : ireach count rounds x -> nthr (base x) = length rounds.
+Proof. induction 1; [reflexivity|]. rewrite lstep_nthr. assumption. Qed.
+
+Lemma filter_all {A} (f : A -> bool) l : (forall a, In a l -> f a = true) -> filter f l = l.
+Proof.
+  induction l as [|a l IH]; intros H; cbn; [reflexivity|].
+  rewrite (H a) by (left; reflexivity). f_equal. apply IH. intros b Hb. apply H. right. exact Hb.
+Qed.
+
+Lemma nodup_ffst (l : list (nat * nat * Z)) :
+  (forall t k v, In (t, k, v) l -> k = 1%nat) -> NoDup (map fst l) -> NoDup (map (fun a => fst (fst a)) l).
+Proof.
+  induction l as [|[[t k] v] l IH]; intros H N; cbn in *; [constructor|].
+  inversion N as [|? ? Hn Nl]; subst. constructor.
+  - intros Hi. apply Hn. apply in_map_iff in Hi. destruct Hi as [[[t' k'] v'] [E Hi]]. cbn in E. subst t'.
+    apply in_map_iff. exists (t, k', v'). split; [|exact Hi]. cbn.
+    rewrite (H t k' v') by (right; exact Hi). rewrite (H t k v) by (left; reflexivity). reflexivity.
+  - apply IH; [|exact Nl]. intros t' k' v' Hi. apply (H t' k' v'). right. exact Hi.
+Qed.
+
+(* exactly count fibers, one round each *)
+Lemma single_round_facts count rounds x :
+  1 <= count -> length rounds = Z.to_nat count -> Forall (fun r => r = 1%nat) rounds ->
+  ireach count rounds x ->
+  round_safe_arrived count x /\
+  Z.of_nat (length (arr x)) <= count /\
+  (forall t k, In (t, k, 1) (rets x) -> k = 1%nat /\ In (t, 1%nat, count - 1) (arr x)) /\
+  (forall t t' k k', In (t, k, 1) (rets x) -> In (t', k', 1) (rets x) -> t = t' /\ k = k').
+Proof.
+  intros Hc Hn F R.
+  pose proof (ireach_l1 _ _ _ R) as L. pose proof (ireach_sr _ _ _ F R) as S.
+  pose proof (ireach_nthr _ _ _ R) as Nt.
+  assert (Ek : forall t k v, In (t, k, v) (arr x) -> k = 1%nat) by (intros t k v H; apply (sr_arr _ S _ _ _ H)).
+  assert (Nf : NoDup (map (fun a => fst (fst a)) (arr x))) by (apply nodup_ffst; [exact Ek|apply L]).
+  assert (Len : Z.of_nat (length (arr x)) <= count).
+  { assert (Hl : (length (map (fun a => fst (fst a)) (arr x)) <= length (seq 0 (nthr (base x))))%nat).
+    { apply NoDup_incl_length; [exact Nf|]. intros u Hu. apply in_map_iff in Hu.
+      destruct Hu as [[[t k] v] [E Hi]]. cbn in E. subst u. apply in_seq. destruct (sr_arr _ S _ _ _ Hi). lia. }
+    rewrite map_length, seq_length, Nt, Hn in Hl. lia. }
+  assert (Ser : forall t k, In (t, k, 1) (rets x) -> k = 1%nat /\ In (t, 1%nat, count - 1) (arr x)).
+  { intros t k H. pose proof (sr_rets _ S _ _ _ H) as ->. split; [reflexivity|].
+    destruct (l1_rets _ _ L _ _ _ H) as (v & Hv & Hb).
+    destruct (In_nth_error _ _ Hv) as [i Hi]. pose proof (l1_tick _ _ L _ _ _ _ Hi) as ->.
+    assert (Hlt : (i < length (arr x))%nat) by (apply nth_error_Some; rewrite Hi; discriminate).
+    destruct (sbit_cases count (Z.of_nat i)) as [[_ Hm]|[Hm _]]; [|congruence].
+    assert (Z.of_nat i + 1 = count).
+    { destruct (Z.eq_dec (Z.of_nat i + 1) count) as [E|E]; [exact E|].
+      rewrite Z.mod_small in Hm by lia. lia. }
+    replace (count - 1) with (Z.of_nat i) by lia. exact Hv. }
+  split; [|split; [exact Len|split; [exact Ser|]]].
+  - intros t k [r H]. pose proof (sr_rets _ S _ _ _ H) as ->.
+    pose proof (no_return_before_count count rounds x t 1%nat r Hc R H) as Hw.
+    unfold arrived_fibers. rewrite filter_all.
+    + split; [exact Nf|]. rewrite map_length. exact Hw.
+    + intros [[t' k'] v'] Hi. cbn. rewrite (Ek _ _ _ Hi). reflexivity.
+  - intros t t' k k' H H'. destruct (Ser _ _ H) as [-> A]. destruct (Ser _ _ H') as [-> A'].
+    split; [|reflexivity].
+    destruct (In_nth_error _ _ A) as [i Hi]. destruct (In_nth_error _ _ A') as [i' Hi'].
+    pose proof (l1_tick _ _ L _ _ _ _ Hi). pose proof (l1_tick _ _ L _ _ _ _ Hi').
+    assert (i = i') by lia. subst i'. congruence.
+Qed.
+
+Lemma entered_in x t k : In (t, k) (ent x) -> In t (entered_fibers x k).
+Proof.
+  intros H. unfold entered_fibers. apply in_map_iff. exists (t, k). split; [reflexivity|].
+  apply filter_In. split; [exact H|]. cbn. apply Nat.eqb_refl.
+Qed.
+
+(* count = 1: every call is serial; round safety is immediate *)
+Lemma round_safe_count1 rounds x : ireach 1 rounds x -> round_safe 1 x.
+Proof.
+  intros R t k [r H]. pose proof (ireach_l1 _ _ _ R) as L.
+  destruct (l1_rets _ _ L _ _ _ H) as (v & Hv & _). pose proof (l1_ent _ _ L _ _ _ Hv) as He.
+  apply entered_in in He. destruct (entered_fibers x k); [destruct He|]. cbn. lia.
+Qed.
